@@ -149,3 +149,9 @@ func VerifH_serial_aesctrhmac() {
 	verifrt.Assert(err == nil, "NewKey")
 	verifh.CheckKeyRoundTrip(k, &keySerializer{}, &keyParser{}, &parametersSerializer{}, &parametersParser{}, pk, id, typeURL, tinkpb.KeyData_SYMMETRIC)
 }
+
+func VerifH_c18_aesctrhmac() {
+	verifrt.EngineOnly()
+	a, _ := build(false)
+	verifh.CheckAEADShared(a)
+}
